@@ -1093,6 +1093,70 @@ func runC11(c *Ctx) {
 			}
 		}
 	}
+	// R2c every datagram a read returned is dispatched: inside the innermost loop around a dispatch call no
+	// iteration gets back to the loop head without passing the call (an empty datagram, a slot with any field
+	// value, is a received datagram; only the failure edge of the read leaves the loop, see R9)
+	{
+		oc := c.Obl("R2c", "udp.readers", "every datagram a read returned is dispatched: in the innermost loop around the dispatch call every iteration passes the call (no message of a batch, and no datagram of the plain path, is skipped)", 1)
+		for _, rd := range r.readers {
+			for _, b := range rd.Blocks {
+				for _, in := range b.Instrs {
+					call, ok := in.(*ssa.Call)
+					if !ok || call.Call.StaticCallee() != D {
+						continue
+					}
+					// innermost loop head: the dominator of b closest to it that has a back edge from a block b reaches
+					var head *ssa.BasicBlock
+					var tails []*ssa.BasicBlock
+					for h := b; h != nil && head == nil; h = h.Idom() {
+						for _, t := range h.Preds {
+							if !h.Dominates(t) {
+								continue
+							}
+							// t is in the loop of h; b belongs to that loop if b reaches t without passing h
+							seen := map[*ssa.BasicBlock]bool{h: true}
+							var dfs func(x *ssa.BasicBlock) bool
+							dfs = func(x *ssa.BasicBlock) bool {
+								if x == t {
+									return true
+								}
+								if seen[x] {
+									return false
+								}
+								seen[x] = true
+								for _, s := range x.Succs {
+									if dfs(s) {
+										return true
+									}
+								}
+								return false
+							}
+							if b == h || dfs(b) {
+								head = h
+							}
+						}
+						if head != nil {
+							for _, t := range h.Preds {
+								if h.Dominates(t) {
+									tails = append(tails, t)
+								}
+							}
+						}
+					}
+					if head == nil {
+						oc.Site(in.Pos(), "dispatch call in %s outside any loop of that function", fname(rd))
+						continue
+					}
+					oc.Site(in.Pos(), "dispatch call in %s, innermost loop head block %d, %d back edge(s)", fname(rd), head.Index, len(tails))
+					for _, t := range tails {
+						if !(b == t || b.Dominates(t)) {
+							oc.Fail(in.Pos(), "an iteration of the loop around the dispatch call in %s can return to the loop head without dispatching (block %d reaches the back edge from block %d past the call): a datagram the read returned is skipped", fname(rd), head.Index, t.Index)
+						}
+					}
+				}
+			}
+		}
+	}
 	for _, rd := range r.readers {
 		instrsOfU(rd, func(in ssa.Instruction) {
 			call, ok := in.(*ssa.Call)
